@@ -37,6 +37,13 @@ class Proxy:
     def __iter__(self):
         raise core.Unsupported("iteration over a symbolic %s" % type(self).__name__)
 
+    # text conversions must never silently embed a proxy's repr into a real string
+    def __str__(self):
+        raise core.Unsupported("str()/%%s of a symbolic %s in unrouted code" % type(self).__name__)
+
+    def __format__(self, spec):
+        raise core.Unsupported("format()/f-string of a symbolic %s in unrouted code" % type(self).__name__)
+
 
 # ------------------------------------------------------------------ booleans
 class SBool(Proxy):
@@ -280,14 +287,15 @@ def _sz(x, like=None):
 
 class SStr(Proxy):
     """str (is_bytes False) or bytes (is_bytes True; code points <= 0xFF, latin-1 view)."""
-    __slots__ = ("t", "is_bytes")
+    __slots__ = ("t", "is_bytes", "narrow")
 
-    def __init__(self, t, is_bytes=False):
+    def __init__(self, t, is_bytes=False, narrow=False):
         self.t = t
         self.is_bytes = is_bytes
+        self.narrow = narrow or is_bytes      # narrow: every code point <= 0xFF (latin-1 text / bytes)
 
     def _mk(self, t):
-        return SStr(z3.simplify(t), self.is_bytes)
+        return SStr(z3.simplify(t), self.is_bytes, self.narrow)
 
     def _other(self, o):
         if isinstance(o, SStr):
